@@ -672,6 +672,26 @@ fn hostile_mode(inputs: &[Value], _seed: u64, si: usize, sn: usize, out: &mut Tr
         };
         ask(&mut control, cmd(&[b"SET", &ck, &cv]), &mut ctl);
         ask(&mut control, cmd(&[b"SET", b"victim", b"keep"]), &mut ctl);
+        if inp["special"].as_str() == Some("rst-backlog") {
+            // a client that resets its connection before the server has accepted it: every slot is taken
+            // while it connects and goes away, then the slots free up and the listener accepts a dead socket
+            let mut fillers = vec![];
+            for _ in 0..3 {
+                if let Some(mut f) = connect(srv.addr) {
+                    let _ = served(&mut f, Duration::from_secs(2));
+                    fillers.push(f);
+                }
+            }
+            for _ in 0..2 {
+                if let Some(r) = connect(srv.addr) {
+                    set_linger0(&r);
+                    drop(r);
+                }
+            }
+            std::thread::sleep(Duration::from_millis(30));
+            drop(fillers);
+            std::thread::sleep(Duration::from_millis(50));
+        }
         // the hostile connection
         let mut hostile_recv = vec![];
         let mut hostile_end = "connect-failed";
